@@ -3,7 +3,7 @@
    (instance QS) and what the property theorems quantify over (instance RS). *)
 From Coq Require Import ZArith List Bool.
 Import ListNotations.
-From Manif Require Import Scalar Mat Consts Group SO2 SE2 SO3 SE3 SE23 SGal3 Rn Generic Api Algorithms Hist Ctor Bundle.
+From Manif Require Import Scalar Mat Consts Group SO2 SE2 SO3 SE3 SE23 SGal3 Rn Generic Api Algorithms Hist Ctor Bundle Views.
 
 Inductive gid : Type :=
 | GSO2 | GSE2 | GSO3 | GSE3 | GSE23 | GSGal3 | GRn (n : nat) | GBundle (l : list gid).
@@ -14,7 +14,7 @@ Inductive opcode : Type :=
 | OExp | OHat | ORjac | OLjac | ORjacinv | OLjacinv | OSmallAdj | OGenerator | OVee | OBracket
 | OInner | OInnerWeights | OWeightedNorm | OSqWeightedNorm | OTPlus | OTMinus | OTIsApprox | ORandom
 | OAliasGT | OAliasGG | OAliasG | OAliasT | OAliasGV | OAliasId
-| OHistory | OInterp | OPhi | OAverage | ODecasteljau | ODcPlan | OCast | OCtor.
+| OHistory | OInterp | OPhi | OAverage | ODecasteljau | ODcPlan | OCast | OCtor | OView.
 
 Section Run.
 Variable F : Sc.
@@ -156,6 +156,14 @@ Definition run_op (g : gid) (op : opcode) (mask : list bool) (iarg : Z) (args : 
       | GSE3, 11%Z => Ok (fin (vset a0 0 (firstn 3 a1)))
       | _, _ => LogicError
       end
+  (* args: buffer, [off; off2] (as scalars: read back through the literal they came from), Y, t, [k; value]; see Views.v.
+     The offsets are integers: they travel in iarg as off + 1000 * off2 + 1000000 * k + 1000000000 * id *)
+  | OView => let off := Z.to_nat (Z.modulo iarg 1000) in let off2 := Z.to_nat (Z.modulo (Z.div iarg 1000) 1000) in
+             let k := Z.to_nat (Z.modulo (Z.div iarg 1000000) 1000) in let id := Z.div iarg 1000000000 in
+             match view_op G id a0 off off2 (arg args 2) (arg args 3) k (vnth (arg args 4) 1) with
+             | Ok (rs, mem) => Ok (rs ++ [mem])
+             | InvalidArgument => InvalidArgument | RuntimeError => RuntimeError | LogicError => LogicError | OutOfBounds i => OutOfBounds i
+             end
   end.
 End Run.
 Arguments run_op {F}. Arguments group_of {F}.
